@@ -373,7 +373,12 @@ public:
     Index index   = indexer(val);
     ThreadData& p = *data.getLocal();
 
-    assert(!UseMonotonic || this->compare(p.curIndex, index));
+    // curIndex is the bin this thread last popped from. It is the priority of
+    // the running activity only once a bin has been chosen and, without a
+    // barrier between levels, only until the thread moves on: an activity
+    // that lost a conflict is retried later from the abort queue.
+    assert(!UseMonotonic || !UseBarrier || !p.current ||
+           this->compare(p.curIndex, index));
 
     // Fast path
     if (index == p.curIndex && p.current) {
